@@ -11,7 +11,7 @@ ID = "C08"
 LEVEL = "fault_enumeration"
 RULE = ("every single insertion (thorough: every pair) of each of 11 bad-piece kinds at every position (new component; property / "
         "array item / union member / additionalProperties of each object schema; parameter / body / response of each operation) "
-        "of 3 valid base documents whose units are linked by every kind of $ref edge, plus every single under every permutation "
+        "of 3 valid base documents whose units are linked by every kind of $ref edge (a fourth base holds several operations per path owning inline classes and shared path-item parameters that some operations re-declare: the bad piece is also inserted into the shared parameter, carried only by the operations that inherit it), plus every single under every permutation "
         "of components.schemas of one base; oracle: modules outside the reverse-dependency cone byte-identical to those of the "
         "cone-free document, remaining tree importable and closed, diagnostics present, nothing invented; non-trivial = the "
         "faulted document was generated and compared")
